@@ -62,6 +62,7 @@ class Model:
         self.rand_vars = []
         self.all_constr = []
         self.var_ev_list = None
+        self.var_const = None
         # self.affadapt_mat = None
 
         pr = self.pro_model.dvar(num_scen, name='probabilities')
@@ -155,6 +156,7 @@ class Model:
                          else dvar.vtype * len(dvar.event_adapt)
                          for dvar in self.dec_vars])
         var_const = self.ro_model.dvar(total, vtype=vtype)
+        self.var_const = var_const
 
         count = 0
         for dvar in self.dec_vars:
@@ -428,7 +430,7 @@ class Model:
 
         # Event-wise objective function
         self.ro_model.obj = None
-        self.ro_model.min(self.ro_model.rc_model.vars[1][0].to_affine())
+        self.ro_model.min(self.var_const[0].to_affine())
         sign = self.sign
         constr = (self.dec_vars[0] >= self.obj * sign)
         if isinstance(constr, ExpPWConstr):
